@@ -99,6 +99,7 @@ class Gen:
         self.nctx = 0
         self.now = 0
         self.deadlines = []
+        self.ticks = [1000]    # instants at which REQ's retry timer (period 1 s, re-armed at every firing) can be due
         self.ttl = 8
         self.o = None          # the model's last observation
         self.rids = []         # request / survey id tokens seen on the wire (model), latest last
@@ -198,8 +199,9 @@ class Gen:
         for _ in range(8):
             t = rng.choice([10, 100, 900, 3000, 7000, 7000, 20000])
             new = self.now + t
-            if all(abs(new - d) >= 2000 for d in self.deadlines):
+            if all(abs(new - d) >= 2000 for d in self.deadlines) and all(abs(new - d) >= 300 for d in self.ticks):
                 self.now = new
+                self.ticks.append(new + 1000)
                 self.emit("advance %d" % t)
                 return
         self.emit("poll")
@@ -223,6 +225,7 @@ def gen_case(rng, proto, sess, density=None, nops=None):
         E("setopt s0 req:resend-time ms %d" % resend)
 
     def sent_one():
+        g.ticks.append(g.now + 1000)
         if proto == "surveyor0":
             g.deadlines.append(g.now + st)
         if proto == "req0" and resend and resend > 0:
@@ -520,7 +523,11 @@ def run(tier, seed, replay=None):
     for f in os.listdir(rep.outdir):
         if f.endswith(".case") or f.endswith(".txt"):
             os.remove(os.path.join(rep.outdir, f))
+    import time as _t
+    t0 = _t.time()
+    phases = rep.cov.setdefault("phase_seconds", {})
     proof_ok, cb, bdir, why = std_prelude(rep, "C15", "Properties_C15", "c15", drivers=("c15",))
+    phases["prelude (gen_consts, coq build + Print Assumptions, extraction, nng build; includes waiting for other checks' locks)"] = round(_t.time() - t0, 1)
     if bdir is None:
         return rep.finish()
     impl, err = wb_build(bdir, "wb_proto.c")
@@ -552,6 +559,7 @@ def run(tier, seed, replay=None):
             for i in range(n):
                 by_proto[pr].append(gen_case(r2, pr, sess))
         sess.close()
+    phases["generation (model-guided)"] = round(_t.time() - t0, 1)
     # batches, run on at most 6 driver pairs at a time
     B = 40 if tier == "quick" else 100
     jobs = []
@@ -616,6 +624,7 @@ def run(tier, seed, replay=None):
         pr, ci, k, line, io, mo, case = diverged[0]
         p = rep.replay_file("diverge_%s_%d.case" % (pr, ci), "# model and implementation differ at op %d: %s\n# impl : %s\n# model: %s\n# (%d cases diverge; the spec oracle found no violation)\n" % (k, line, io, mo, len(diverged)) + "\n".join(case) + "\n")
         rep.violation(p, "correspondence protocol model<->code broken on %d cases (%s); first: %s op %r\n impl =%r\n model=%r" % (len(diverged), ",".join(sorted({d[0] for d in diverged})), pr, line, io, mo), nofail=True)
+    phases["protocol runs + oracle + comparison"] = round(_t.time() - t0, 1)
     # recorded findings met on the way
     for key, (cnt, case, k) in sorted(STATS.known.items()):
         small = [l for l in case[:k + 1]]
@@ -659,11 +668,38 @@ def run(tier, seed, replay=None):
             if wout != wmod and not rep.violations:
                 p = rep.replay_file("pollable_window_diverge.txt", "impl  %s\nmodel %s\n" % (wout, wmod))
                 rep.violation(p, "pollable.c and its interleaving model differ on the forced window: impl %s model %s" % (wout, wmod), nofail=True)
+        # the buffer API on real sockets (nng_send / nng_recv with NNG_FLAG_NONBLOCK, inproc, real threads)
+        apis = []
+        for _ in range(3 if tier == "quick" else 50):
+            rc, aout, aerr = run_prog(pimpl, "api\n", timeout=60)
+            m = re.match(r"api send0=(-?\d+) recv0=(-?\d+) send1=(-?\d+) send2=(-?\d+) polled=(\d) recv1=(-?\d+) len=(-?\d+) fd_after=(-?\d+) max_nb_us=(\d+)", aout[0]) if aout else None
+            if rc != 0 or not m:
+                p = rep.replay_file("api.txt", "\n".join(aout) + "\n" + (aerr or "")[-2000:])
+                rep.violation(p, "buffer-API probe crashed or leaked (rc=%s): %s" % (rc, san_summary(aerr)))
+                break
+            v = [int(x) for x in m.groups()]
+            apis.append(v)
+            bad = None
+            if v[0] != 8 or v[1] != 8:
+                bad = "nng_send / nng_recv with NNG_FLAG_NONBLOCK on a socket that can neither send nor receive returned %d / %d, not NNG_EAGAIN" % (v[0], v[1])
+            elif v[2] != 0 or v[3] != 8:
+                bad = "NONBLOCK nng_send with one buffer slot free returned %d, the next one %d (expected 0, then NNG_EAGAIN)" % (v[2], v[3])
+            elif v[4] == 1 and (v[5] != 0 or v[6] != 10):
+                bad = "receive descriptor polled readable but NONBLOCK nng_recv returned %d (len %d)" % (v[5], v[6])
+            elif v[4] == 1 and v[7] != 0:
+                bad = "receive descriptor still readable after the only message was received"
+            if bad:
+                p = rep.replay_file("api.case", "# %s\n# %s\napi\n" % (bad, aout[0]))
+                rep.violation(p, "buffer API (wb_c15 `api`): " + bad)
+                break
+        rep.cov["buffer_api"] = {"runs": len(apis), "poll_timed_out (2 s, not judged)": sum(1 for v in apis if v[4] == 0),
+                                 "longest NONBLOCK call in microseconds (recorded, not judged)": max([v[8] for v in apis] or [0])}
         rounds = 2000 if tier == "quick" else 200000
         rc, out, errt = run_prog(pimpl, "race %d %d\n" % (rounds, seed), timeout=600)
         m = re.match(r"race rounds=(\d+) bad=(\d+) raised_final=(\d+) created_during=(\d+)", out[0]) if out else None
         rep.cov["pollable"] = {"sequential_cases": len(pc), "race": out[0] if out else "no output (rc=%s)" % rc,
                                "note": "race = first getfd on one thread against raise/clear on another; the outcome is timing dependent and is recorded only (see Properties_C15.pollable_level_concurrent_clear_refuted)"}
+    phases["pollable"] = round(_t.time() - t0, 1)
     # ---- evidence
     rep.cov["distinct_nontrivial"] += len(distinct)
     rep.cov["cases"] = ncases
@@ -676,6 +712,27 @@ def run(tier, seed, replay=None):
         some = next(iter(by_proto.values()))
         if some:
             rep.cov["samples"] += [some[0][:16]]
+    # the statements the verdict rests on must all be there
+    protos18 = ["req", "rep", "xreq", "xrep", "pub", "sub", "xsub", "push", "pull", "surveyor", "respondent", "xsurveyor", "xrespondent",
+                "pair0", "pair1", "pair1raw", "bus"]
+    need = ["%s_c15" % p for p in protos18] + ["%s_c15_more" % p for p in protos18] + [
+        "pollable_level", "pollable_level_whenever_first_requested", "pollable_level_first_getfd_racing_raise_holds",
+        "pollable_level_first_getfd_racing_clear_refuted", "pollable_level_concurrent_now", "nonblock_sendmsg_never_waits_keeps_message_on_failure",
+        "nonblock_recvmsg_never_waits", "nonblock_flag_matters_only_where_the_protocol_waits", "nng_send_frees_exactly_its_own_copy_on_failure",
+        "c15_packs_are_the_extracted_models", "c15_table_now", "c15_consts_match"]
+    missing = [t for t in need if t not in cb.get("theorems", [])]
+    if proof_ok and missing:
+        proof_ok, why = False, "theorems missing from Properties_C15: %s" % ", ".join(missing)
+    rep.cov["clause_table"] = {
+        "legend": "per protocol: nb_immediate / nb_succeeds_if_possible / poll_mirror (the property) ; strict = EAGAIN only where the blocking form queues ; exact = raised <-> would succeed ; iff = raised <-> not EAGAIN",
+        "full strength incl. strict, exact, iff": ["xreq", "xrep", "pub", "sub", "xsub", "push", "pull", "xsurveyor", "xrespondent", "pair0", "pair1", "pair1raw"],
+        "req": "three clauses + strict hold; exact holds under the contract 'fewer than 2^31-1 contexts' (partial without it: ENOMEM corner); iff refuted (ESTATE states, not a defect)",
+        "rep": "three clauses hold (since fix ca9024c); send half of strict holds, receive half refuted (second receive on a context: EAGAIN vs ESTATE); receive half of exact holds, send half refuted (reply queued behind busy pipe + new request: raised, ESTATE); iff refuted",
+        "surveyor": "three clauses + strict hold; exact refuted (expired survey with queued responses: raised, ESTATE); iff refuted",
+        "respondent": "nb_immediate and the receive halves hold; nb_succeeds_if_possible and poll_mirror (send half) FALSE of the source: known finding respondent-nb-send-eagain; all three hold for the repaired form (rf_nb)",
+        "bus": "nb_immediate (since fix 6932118) and the receive halves hold; nb_succeeds_if_possible and poll_mirror (send half) FALSE of the source: known finding bus-nonblock-send-eagain; everything holds for the repaired form",
+        "pollable.c": "level flag for non-overlapping calls; first getfd racing raise safe; racing clear refuted for the pinned getfd, holds in every interleaving for the current one (fix 6840be2)",
+    }
     if not proof_ok and not rep.violations:
         proof_broken_report(rep, cb, "C15 theorems do not check (%s)" % why)
     rep.cov["rule"] = ("for each of the 22 socket types (11 protocols, cooked and raw; 18 distinct state machines) random histories over the deterministic transport: connects with the right / wrong peer, "
